@@ -88,6 +88,14 @@ PROPS = {
         "note": "Trusted: Coq kernel; translator's type-switch extraction; fmt %v / float truncation modelled (compared on every run). Known finding: integers beyond 2^53 lose precision through encoding/json (F13). No axioms.",
         "assumptions": ["no FNV-64 collision among the texts used (theorems identify an id with its text)", "floats inside the modelled fragment |x| < 2^63"],
     },
+    "C08": {
+        "level": "proof",
+        "design_ref": "§6 C08",
+        "technique": "Coq proof over the builder model (parse-then-commit, policy switch, wildcard registration where the code has it): no match-everything entry for an unparseable conjunction under every policy, rejected documents leave the state unchanged, plus a vm_compute refutation for the pinned tree's ordering; fault enumeration over every expression position x container kind x policy x index type against the real builder, posting-list contents compared through a hook",
+        "text": "for every builder state, document, position and kind of unparseable expression, and every policy, the model registers no match-everything entry for a conjunction that does not parse, and outright-rejected documents change nothing (Coq theorems); the faithful model of the pinned ordering is refuted by computation (that was the defect, repaired by a fix: commit). Fault enumeration runs the real builder on every fault position and compares AddDocument outcomes, posting-list entries (hook) and the answers of trace-revealing queries with the model and with the DNF specification of the document without its bad conjunctions.",
+        "note": "Trusted: as C01. The statement 'no posting entry' for the default/pattern/range holders is checked by the correspondence run through the hook (all posting-list entries compared as a multiset).",
+        "assumptions": ["unsupported operators on a container (programming error, PanicIf) are outside the property's 'unparseable value'"],
+    },
 }
 
 # properties not claimed (reason); empty when everything is claimed
